@@ -94,8 +94,8 @@ theorem insert_treeShape (p : Params K) (pv : p.Valid) (t : Tree K V) (ht : Tree
     | some r =>
       rw [hr] at hres
       simp only at hres
-      have hshape := insertDescend_shape p pv k v h0 r0 1 1 (by simp [Params.leafMin]; omega)
-        (by simp [Params.innerMin]; omega) hs r hr
+      have hshape := insertDescend_shape p pv k v h0 r0 1 1 (by simp [Params.leafMin, Gen.leafSlotmin]; omega)
+        (by simp [Params.innerMin, Gen.innerSlotmin]; omega) hs r hr
       have hcount := insertDescend_count p k v h0 r0 r hr
       have hflat := insertDescend_flatten p pv k v h0 r0 1 1 hs r hr
       have hlen := congrArg List.length hflat
